@@ -693,8 +693,16 @@ impl PoolMap {
             while ancestors_count > self.max_ancestors_count {
                 if let Some(next_id) = iter.next() {
                     let removed = self.remove_entry_and_descendants(next_id);
-                    ancestors_count = ancestors_count.saturating_sub(1);
-                    parents.remove(next_id);
+                    // the eviction takes the candidate's descendants with it, which may be
+                    // parents of the new entry as well
+                    for entry in &removed {
+                        parents.remove(&entry.proposal_short_id());
+                    }
+                    ancestors_count = self
+                        .links
+                        .calc_relation_ids(parents.clone(), Relation::Parents)
+                        .len()
+                        + 1;
                     evicted.extend(removed);
                 } else {
                     break;
